@@ -189,7 +189,11 @@ class Mapper(Client):
             if w.meta["c"][cid].get("mapped"):
                 return False
             try:
-                return c.U_full.shape[0] == c.n_modes
+                # lossless: the n x n matrix is unitary (loss elements of value
+                # exactly zero add loss modes to U_full but lose nothing)
+                u = c.U
+                return bool(np.allclose(u @ u.conj().T, np.identity(c.n_modes),
+                                        atol=1e-10))
             except Exception:  # noqa: BLE001
                 return False
         return self.any_circuits(ok)
@@ -548,8 +552,15 @@ class ReckMonitor(Monitor):
             return []
         c = w.pool["c"][op["c"]]
         co = obs_circuit(c)
-        if isinstance(co[4], tuple) or co[4].shape[0] != c.n_modes:
-            return []     # not a lossless, compilable circuit: undocumented input
+        if isinstance(co[4], tuple):
+            return []     # not a compilable circuit: undocumented input
+        if co[4].shape[0] != c.n_modes:
+            # loss modes present: lossless only if every loss is exactly zero
+            cu = co[4][: c.n_modes, : c.n_modes]
+            if not np.allclose(cu @ cu.conj().T, np.identity(c.n_modes), atol=1e-10):
+                return []
+            w.probe("map_of_circuit_with_zero_loss_elements")
+            co = (*co[:4], cu)
         key, descs, trivial = self.em_config(op["r"])
         sig = {"trivial_model": trivial}
         if out["status"] != "ok":
